@@ -39,6 +39,9 @@ type opCase struct {
 	Ranges []prange `json:"ranges,omitempty"`
 	// Plan: the input object is produced by this chain of public operations (nil: freshly built)
 	Plan *gen.Plan `json:"plan,omitempty"`
+	// Dup: in-place operations only: row Dup[k][0] is renamed (Rename, in place) to the name of row
+	// Dup[k][1] before the operation: two rows then share a name
+	Dup [][2]int `json:"dup,omitempty"`
 	// Touch: rows read as strings (even: by name, odd: by index) before the operation, in the
 	// first execution only
 	Touch []int `json:"touch,omitempty"`
@@ -390,6 +393,17 @@ func genHistory(t *rapid.T, c *opCase) {
 		p := gen.DrawPlan(t, c.Ali, junk, 3)
 		c.Plan = &p
 	}
+	if inplaceOps[c.Op] && len(c.Ali.Rows) >= 2 && rapid.IntRange(0, 5).Draw(t, "dupnames") == 0 {
+		n := len(c.Ali.Rows)
+		k := rapid.IntRange(1, 2).Draw(t, "ndup")
+		for i := 0; i < k; i++ {
+			from := rapid.IntRange(0, n-1).Draw(t, "dupfrom")
+			to := rapid.IntRange(0, n-1).Draw(t, "dupto")
+			if from != to {
+				c.Dup = append(c.Dup, [2]int{from, to})
+			}
+		}
+	}
 	if rapid.Bool().Draw(t, "touched") {
 		k := rapid.IntRange(1, 3).Draw(t, "ntouch")
 		for i := 0; i < k; i++ {
@@ -581,14 +595,42 @@ func buildVia(c opCase, provenance bool) (sb align.SeqBag, unusable bool) {
 	if strings.HasSuffix(c.Op, "-bag") {
 		return gen.BuildBag(c.Ali), false
 	}
+	var al align.Alignment
 	if provenance && c.Plan != nil && c.Big == nil {
-		if al, ok := gen.BuildVia(c.Ali, *c.Plan); ok {
-			return al, false
+		if x, ok := gen.BuildVia(c.Ali, *c.Plan); ok {
+			al = x
+		} else {
+			unusable = true
 		}
-		return gen.MustBuild(c.Ali), true
 	}
-	return gen.MustBuild(c.Ali), false
+	if al == nil {
+		al = gen.MustBuild(c.Ali)
+	}
+	for _, d := range c.Dup {
+		al.Rename(map[string]string{c.Ali.Rows[d[0]].Name: c.Ali.Rows[d[1]].Name})
+	}
+	return al, unusable
 }
+
+// renamed gives the rows as the operation sees them: with the names shared after the renames of Dup
+func renamed(rows []gen.Row, dup [][2]int) []gen.Row {
+	if len(dup) == 0 {
+		return rows
+	}
+	out := append([]gen.Row{}, rows...)
+	for _, d := range dup {
+		// as Rename does: every row currently carrying the (original) name of row d[0]
+		from, to := rows[d[0]].Name, rows[d[1]].Name
+		for i := range out {
+			if out[i].Name == from {
+				out[i].Name = to
+			}
+		}
+	}
+	return out
+}
+
+var inplaceOps = map[string]bool{"shuffle-seqs": true, "shuffle-sites": true, "swap": true, "recombine": true, "rogue": true, "mutate": true, "addgaps": true}
 
 // touch reads some rows as strings before the operation (a partial read: the rows not listed are
 // not read)
@@ -654,12 +696,14 @@ func accessors(sb align.SeqBag) string {
 			bad = d
 		}
 	}
-	seen := map[string]bool{}
+	times := map[string]int{}
+	for _, v := range byIndex {
+		times[v.name]++
+	}
 	for k, v := range byIndex {
-		if seen[v.name] {
-			continue // duplicated names: the name leads to the first one
+		if times[v.name] > 1 {
+			continue // rows sharing a name: which of them the name leads to is not this property's business
 		}
-		seen[v.name] = true
 		if s, ok := sb.GetSequence(v.name); (!ok || s != v.seq) && bad == "" {
 			bad = fmt.Sprintf("row %d: GetSequenceById gives %s=%q, GetSequence(name) gives %q,%v", k, v.name, v.seq, s, ok)
 		}
@@ -994,7 +1038,10 @@ func countClass(x, n int) string {
 
 func checkOp(c opCase) (o pbt.Outcome, err error) {
 	c = c.expand()
-	orig := c.Ali.Rows
+	orig := renamed(c.Ali.Rows, c.Dup)
+	if len(c.Dup) > 0 {
+		o.Class("rows sharing a name")
+	}
 	x, unusable := buildVia(c, true)
 	if c.Plan != nil && c.Big == nil && !strings.HasSuffix(c.Op, "-bag") {
 		if unusable {
